@@ -32,6 +32,7 @@ import (
 	"errors"
 	"fmt"
 	"os"
+	"sort"
 	"strings"
 	"sync"
 	"sync/atomic"
@@ -534,5 +535,301 @@ func TestVerif_C36_Stress(t *testing.T) {
 			}
 		}
 		th.Reset()
+	})
+}
+
+// ---------------------------------------------------------------------------
+// Level changes WHILE a request is blocked inside Delay.
+//
+// "A throttled request waits no longer than the current delay": whatever
+// Signal/Release/Reset do while a request waits, the request must be through no
+// later than the largest delay that was in force at any time during its call
+// (+ slack), and a context that ends first must still cut the wait short.
+// This is the one place where the property itself states a time bound, so it
+// is judged: bound = maxDelayInForce + max(250ms, 50%). To stay sound on an
+// overloaded machine every scenario runs a canary (a plain timer of the initial
+// delay started together with the Delay call); when the canary itself wakes up
+// more than 60ms late (worst of three) the scenario is discarded and counted, not judged.
+
+type c36MidOp struct {
+	AtMs int    // offset from the start of the Delay call
+	Kind string // S, R, X
+}
+
+type c36MidScenario struct {
+	Delays  []time.Duration
+	Rate    int
+	Signals int // initial Signals (level before the call)
+	Ops     []c36MidOp
+	CtxMs   int // 0 = live context, else deadline offset
+	Shape   string
+}
+
+func (s c36MidScenario) String() string {
+	return fmt.Sprintf("{%s delays=%v rate=%d signals=%d ctx=%dms ops=%v}", s.Shape, s.Delays, s.Rate, s.Signals, s.CtxMs, s.Ops)
+}
+
+type c36MidResult struct {
+	sig, msg  string
+	discarded bool
+	midOps    int  // ops that landed while the request was still waiting
+	easedLow  bool // a Release landed mid-wait and left the level non-zero
+	cut       bool
+}
+
+func c36RunMid(sc c36MidScenario) (res c36MidResult) {
+	th := New(append([]time.Duration{}, sc.Delays...), sc.Rate, 0)
+	max := len(sc.Delays) - 1
+	lvl := 0
+	for i := 0; i < sc.Signals; i++ {
+		th.Signal()
+		if lvl < max {
+			lvl++
+		}
+	}
+	d0 := sc.Delays[lvl]
+	maxD := d0
+	slack := func() time.Duration {
+		s := maxD / 2
+		if s < 250*time.Millisecond {
+			s = 250 * time.Millisecond
+		}
+		return s
+	}
+	ctx, cancel := context.WithCancel(context.Background())
+	defer cancel()
+	if sc.CtxMs > 0 {
+		ctx, cancel = context.WithTimeout(context.Background(), time.Duration(sc.CtxMs)*time.Millisecond)
+		defer cancel()
+	}
+	type ret struct {
+		err     error
+		elapsed time.Duration
+	}
+	done := make(chan ret, 1)
+	canary := make(chan time.Duration, 1)
+	start := time.Now()
+	go func() {
+		// three canaries; the worst lateness counts
+		var cw sync.WaitGroup
+		var worst atomic.Int64
+		for i := 0; i < 3; i++ {
+			cw.Add(1)
+			go func() {
+				defer cw.Done()
+				t := time.NewTimer(d0)
+				<-t.C
+				l := int64(time.Since(start) - d0)
+				for {
+					w := worst.Load()
+					if l <= w || worst.CompareAndSwap(w, l) {
+						break
+					}
+				}
+			}()
+		}
+		cw.Wait()
+		canary <- time.Duration(worst.Load())
+	}()
+	go func() {
+		err := th.Delay(ctx)
+		done <- ret{err, time.Since(start)}
+	}()
+	canaryLate := func() bool {
+		select {
+		case l := <-canary:
+			canary <- l
+			return l > 60*time.Millisecond
+		default:
+			return true // has not even fired yet
+		}
+	}
+	// bound on the return time, from the start of the call
+	bound := func() time.Duration {
+		b := maxD
+		if sc.CtxMs > 0 && time.Duration(sc.CtxMs)*time.Millisecond < b {
+			b = time.Duration(sc.CtxMs) * time.Millisecond
+		}
+		return b + slack()
+	}
+	finish := func(r ret) c36MidResult {
+		if r.elapsed > bound() {
+			if canaryLate() {
+				res.discarded = true
+				return res
+			}
+			res.sig = "C36/delay-exceeds-max-delay-in-force"
+			res.msg = fmt.Sprintf("Delay returned %v after %v; the largest delay in force during the call was %v (context %dms); %s", r.err, r.elapsed, maxD, sc.CtxMs, sc)
+			return res
+		}
+		if r.err != nil {
+			if sc.CtxMs == 0 || !errors.Is(r.err, context.DeadlineExceeded) {
+				res.sig = "C36/delay-wrong-error"
+				res.msg = fmt.Sprintf("Delay returned %v; %s", r.err, sc)
+				return res
+			}
+			res.cut = true
+		}
+		return res
+	}
+	next := 0
+	for {
+		var opAt time.Duration = 1 << 62
+		if next < len(sc.Ops) {
+			opAt = time.Duration(sc.Ops[next].AtMs) * time.Millisecond
+		}
+		limit := bound()
+		wake := opAt
+		if limit < wake {
+			wake = limit
+		}
+		tm := time.NewTimer(time.Until(start.Add(wake)))
+		select {
+		case r := <-done:
+			tm.Stop()
+			return finish(r)
+		case <-tm.C:
+		}
+		if wake == opAt && opAt <= limit {
+			// the op is issued while the request has not been seen to return
+			switch sc.Ops[next].Kind {
+			case "S":
+				th.Signal()
+				if lvl < max {
+					lvl++
+				}
+			case "R":
+				th.Release()
+				lvl -= sc.Rate
+				if lvl < 0 {
+					lvl = 0
+				}
+				if lvl > 0 {
+					res.easedLow = true
+				}
+			case "X":
+				th.Reset()
+				lvl = 0
+			}
+			if sc.Delays[lvl] > maxD {
+				maxD = sc.Delays[lvl]
+			}
+			res.midOps++
+			next++
+			continue
+		}
+		// the bound has passed and the request is still inside Delay
+		select {
+		case r := <-done:
+			return finish(r)
+		default:
+		}
+		late := canaryLate()
+		cancel()
+		var r ret
+		select {
+		case r = <-done:
+		case <-time.After(c36Proceed):
+			res.sig = "C36/delay-ignores-context"
+			res.msg = fmt.Sprintf("Delay still blocked %v after its context was cancelled; %s", c36Proceed, sc)
+			return res
+		}
+		if late {
+			res.discarded = true
+			return res
+		}
+		res.sig = "C36/delay-exceeds-max-delay-in-force"
+		res.msg = fmt.Sprintf("request still waiting in Delay %v after the call started (returned %v only after its context was cancelled); the largest delay in force during the call was %v (context %dms); %s", time.Since(start), r.err, maxD, sc.CtxMs, sc)
+		return res
+	}
+}
+
+func TestVerif_C36_MidWait(t *testing.T) {
+	rec := vstat.New(t, "C36", "midwait",
+		"4 independent scenarios per case, run concurrently: a Throttler with 2..5 levels of 100..800ms (level 0 = 0), rate 1..3, no idle timer, raised to a generated level; one request blocks in Delay (live context, or a deadline at a generated offset) while the driver issues generated Signal/Release/Reset at generated offsets inside the wait (shapes: one late Release at 50-95% of the delay, Release/Signal oscillation every 30-100ms, 1-6 random ops, late Reset+Signal); the request must return no later than min(largest delay in force during the call, context deadline) + max(250ms,50%); scenarios whose canary timers (3, started with the call) woke up >60ms late are discarded; non-trivial = some scenario had a Release land mid-wait that left the level non-zero; distinct by scenarios")
+	rapid.Check(t, func(rt *rapid.T) {
+		const k = 4
+		scs := make([]c36MidScenario, k)
+		for i := range scs {
+			n := rapid.IntRange(2, 5).Draw(rt, "levels")
+			sc := c36MidScenario{Delays: make([]time.Duration, n), Rate: rapid.IntRange(1, 3).Draw(rt, "rate")}
+			for j := 1; j < n; j++ {
+				sc.Delays[j] = time.Duration(rapid.IntRange(2, 16).Draw(rt, "d50")) * 50 * time.Millisecond
+			}
+			sc.Signals = rapid.IntRange(1, n).Draw(rt, "signals")
+			lvl := sc.Signals
+			if lvl > n-1 {
+				lvl = n - 1
+			}
+			d0 := int(sc.Delays[lvl] / time.Millisecond)
+			sc.Shape = rapid.SampledFrom([]string{"late-release", "late-release", "oscillate", "oscillate", "random", "reset-signal"}).Draw(rt, "shape")
+			switch sc.Shape {
+			case "late-release":
+				sc.Rate = 1
+				at := d0 * rapid.IntRange(50, 95).Draw(rt, "pct") / 100
+				sc.Ops = []c36MidOp{{at, "R"}}
+				if rapid.Bool().Draw(rt, "second") {
+					sc.Ops = append(sc.Ops, c36MidOp{at + rapid.IntRange(20, 200).Draw(rt, "gap"), "R"})
+				}
+			case "oscillate":
+				sc.Rate = 1
+				p := rapid.IntRange(30, 100).Draw(rt, "period")
+				for at := p; at < 3*d0+1000; at += p {
+					sc.Ops = append(sc.Ops, c36MidOp{at, "R"}, c36MidOp{at + p/2, "S"})
+				}
+			case "random":
+				m := rapid.IntRange(1, 6).Draw(rt, "nops")
+				for j := 0; j < m; j++ {
+					sc.Ops = append(sc.Ops, c36MidOp{d0 * rapid.IntRange(5, 120).Draw(rt, "pct") / 100, rapid.SampledFrom([]string{"S", "R", "R", "X"}).Draw(rt, "op")})
+				}
+				sort.SliceStable(sc.Ops, func(a, b int) bool { return sc.Ops[a].AtMs < sc.Ops[b].AtMs })
+			case "reset-signal":
+				at := d0 * rapid.IntRange(30, 95).Draw(rt, "pct") / 100
+				sc.Ops = []c36MidOp{{at, "X"}, {at + rapid.IntRange(0, 30).Draw(rt, "gap"), "S"}, {at + 60, "S"}}
+			}
+			if rapid.IntRange(0, 3).Draw(rt, "ctx") == 0 {
+				sc.CtxMs = d0 * rapid.IntRange(20, 150).Draw(rt, "ctxpct") / 100
+				if sc.CtxMs < 1 {
+					sc.CtxMs = 1
+				}
+			}
+			scs[i] = sc
+		}
+		results := make([]c36MidResult, k)
+		var wg sync.WaitGroup
+		for i := range scs {
+			wg.Add(1)
+			go func(i int) {
+				defer wg.Done()
+				results[i] = c36RunMid(scs[i])
+			}(i)
+		}
+		wg.Wait()
+		canon := fmt.Sprint(scs)
+		nontrivial := false
+		for i, r := range results {
+			if r.discarded {
+				rec.Label("discarded:canary-late")
+				continue
+			}
+			rec.Label("shape-" + scs[i].Shape)
+			if r.easedLow {
+				nontrivial = true
+				rec.Label("release-mid-wait-to-nonzero-level")
+			}
+			if r.midOps > 0 {
+				rec.Label("op-landed-mid-wait")
+			}
+			if r.cut {
+				rec.Label("cut-by-context")
+			}
+		}
+		rec.Case(nontrivial, canon)
+		rec.Sample(canon)
+		for _, r := range results {
+			if r.sig != "" {
+				rt.Fatalf("%s", rec.Violation(r.sig, "%s", r.msg))
+			}
+		}
 	})
 }
